@@ -234,6 +234,25 @@ pub fn check(s: &'static dyn Proto, c: &Case, st: &mut Stats, _k: &KnownFindings
             eks.push(fin.export_key);
         }
         ensure!(eks[0] != eks[1], "the same registration (same client tapes) at two unrelated servers returns the same export key");
+        // ... and so does another user or another password at the same server, even with identical
+        // client tapes and credential identifiers that share a long prefix
+        let prefix = gen::expand(40 + (c.ops.len() * 37) % 400, 99);
+        let mk_cred = |tail: &[u8]| {
+            let mut v = prefix.clone();
+            v.extend_from_slice(tail);
+            v
+        };
+        let mut variants: Vec<(String, Vec<u8>)> = Vec::new();
+        for (what, pw_i, cred_i) in [("base", 0usize, mk_cred(b"alice")), ("other user", 0, mk_cred(b"bob")), ("other password", 1, mk_cred(b"alice"))] {
+            let (req, cst) = s.client_reg_start(&mut t(900).rng(), &pws[pw_i]).map_err(|x| e("client reg start", x))?;
+            let resp = s.server_reg_start(&setups[0], &req, &cred_i).map_err(|x| e("server reg start", x))?;
+            let fin = s.client_reg_finish(cst, &mut t(901).rng(), &pws[pw_i], &resp, ids, None).map_err(|x| e("client reg finish", x))?;
+            variants.push((what.to_string(), fin.export_key));
+        }
+        for (what, ek) in &variants[1..] {
+            ensure!(ek != &variants[0].1, "{what} (same server, same client tapes, credential ids sharing a {}-byte prefix) yields the same export key", prefix.len());
+        }
+        st.eval(2);
         let mk = |u: &Vec<u8>| crate::fieldmap::slice(&m, Ty::RegUpload, "masking_key", u).to_vec();
         ensure!(mk(&uploads[0]) != mk(&uploads[1]), "the same registration at two unrelated servers yields the same masking key");
         st.eval(2);
